@@ -42,6 +42,13 @@ type Scenario struct {
 	DB       int // deviation bound
 	MaxSteps int
 	MaxTime  time.Duration
+	// Delay makes every departure from the default scheduler (continue the running
+	// thread, else the first enabled one) cost one unit of PB, also at blocking points
+	// (delay-bounded instead of preemption-bounded search): for systems with many threads.
+	Delay bool
+	// Single runs only the default schedule (no alternatives): for scenarios whose
+	// point is the input or history, with too many threads to interleave.
+	Single bool
 }
 
 // Harness is a set of scenarios per tier.
@@ -143,14 +150,14 @@ var (
 	flagShmBits = flag.Uint("shmbits", 24, "log2 of the number of slots in the shared visited set")
 )
 
-func cost(ch []vs.Choice) (pre, dev int) {
+func cost(ch []vs.Choice, delay bool) (pre, dev int) {
 	for _, c := range ch {
 		if c.Pick == 0 {
 			continue
 		}
 		switch c.Kind {
 		case vs.ChSched:
-			if c.Preempt {
+			if c.Preempt || delay {
 				pre++
 			}
 		case vs.ChDev:
@@ -196,7 +203,7 @@ func (e *explorer) runOne(prefix []int, trace bool, cache bool) (*vs.Result, Exe
 			if !counted {
 				// every choice beyond the prefix is alternative 0 and costs nothing
 				ch := s.ChoicesSoFar()
-				pre, dev = cost(ch[:min(len(prefix), len(ch))])
+				pre, dev = cost(ch[:min(len(prefix), len(ch))], e.scn.Delay)
 				counted = true
 			}
 			return e.visit(key, pre, dev)
@@ -272,12 +279,12 @@ func (e *explorer) node(prefix []int, trace bool) [][]int {
 		}
 	}
 	var kids [][]int
-	pre, dev := cost(r.Choices[:min(len(prefix), len(r.Choices))])
+	pre, dev := cost(r.Choices[:min(len(prefix), len(r.Choices))], e.scn.Delay)
 	for i := len(prefix); i < len(r.Choices); i++ {
 		c := r.Choices[i]
 		for alt := 1; alt < c.N; alt++ {
 			p, d := pre, dev
-			if c.Kind == vs.ChSched && c.Preempt {
+			if c.Kind == vs.ChSched && (c.Preempt || e.scn.Delay) {
 				p++
 			}
 			if c.Kind == vs.ChDev {
@@ -670,13 +677,16 @@ scnLoop:
 					break
 				}
 				merge(r)
+				if sc.Single {
+					break
+				}
 				frontier = append(frontier, r.Children...)
 				if len(agg.Viol) > 0 {
 					break
 				}
 			}
 			// Phase 2: hand subtrees to the worker pool.
-			if !crashed && len(agg.Viol) == 0 && len(frontier) > 0 {
+			if !crashed && len(agg.Viol) == 0 && len(frontier) > 0 && !sc.Single {
 				var mu sync.Mutex
 				next := 0
 				var wg sync.WaitGroup
@@ -774,6 +784,9 @@ scnLoop:
 				break
 			}
 			st.PBCompleted = pb
+			if sc.Single {
+				break
+			}
 		}
 		st.Outcomes = len(scObs)
 		rep.Scenarios = append(rep.Scenarios, st)
